@@ -19,6 +19,8 @@ def plan(tier):
     pl += [(PG.saturate_resize(1, 4), 0 if tier == "quick" else 1, dict(kinds=("P",))),
            (PG.saturate_resize(1, 5), 0, dict(kinds=("P",))),
            (PG.saturate(5, 0, None, "reusable", cpu=1), 0, dict(kinds=("P",)))]
+    # a resize interrupted by an exception (warnings as errors) must not leave a half-updated pool
+    pl += [(PG.interrupted_resize(3, 1), 1, PT), (PG.interrupted_resize(2, 1), 1, PT)]
     pl += [(PG.respawn_race(2), 2, dict(kinds=("T", "P"), t_scope="parent:main", p_scope="parent:",
                                         p_when="_adjust_process_count"))]
     if tier == "thorough":
